@@ -6,16 +6,6 @@ def E(name, src, model=None, quick=None, thorough=None, **kw):
     return d
 
 PROPS = {
-    "C01": dict(
-        lean_props=["H4.Props.C01"],
-        engines=[
-            E("elem", "e_elem.c", model="elem", quick=dict(cases=1200, chunk=40), thorough=dict(cases=20000, seeds=8, chunk=100), wrap=True),
-        ],
-        trusted_base=["directory encoding on disk (DD blocks, tag tree) is represented by its extents only: C12/C02",
-                      "external-file, compressed and chunked elements are not part of this engine (C03/C04/C05)",
-                      "stdio interposition (ld --wrap) used by the engine for the uninitialised-byte regression oracle"],
-        assumptions=["stdio stream = byte array, a gap created by writing past the end reads as zeros; single-threaded; all offsets and lengths within int32 (the model is unbounded)"],
-    ),
     "C12": dict(
         lean_props=["H4.Props.C12"],
         engines=[
@@ -44,15 +34,15 @@ PROPS = {
         lean_props=["H4.Props.C04Chunk", "H4.Props.C04MCache"],
         engines=[
             E("chunk", "e_chunk.c", model="chunk", quick=dict(cases=400), thorough=dict(cases=15000, seeds=4, chunk=100)),
-            # exhaustive: every chunk shape of every extent <= 4, <= 4x4, <= 3x3x2 (615 geometries) x nt 1,2,4; every aligned (pos,len) walk
+            # exhaustive: every chunk shape of every extent <= 4, <= 4x4, <= 3x3x2 (615 geometries) x nt 1,2,4; every in-range (pos,len) walk, aligned or not
             E("mcache", "e_mcache.c", model="mcache", quick=dict(cases=1500), thorough=dict(cases=20000, seeds=8, chunk=500)),
-            E("chunk_exh", "e_chunk.c", model="chunk", quick=dict(cases=615, args=["exh"]), thorough=dict(cases=1845, seeds=1, args=["exh"], chunk=50)),
+            E("chunk_exh", "e_chunk.c", model="chunk", quick=dict(cases=1845, args=["exh"], chunk=30), thorough=dict(cases=1845, seeds=1, args=["exh"], chunk=30)),
         ],
         trusted_base=["mcache.c page cache and the chunk table Vdata/TBBT: not modelled here (chunk store = map chunk number -> buffer); "
                       "checked on the implementation by the shadow-array oracle under cache sizes 1..3, Hendaccess and reopen"],
         assumptions=["no int32 overflow: prod(dim_length)*nt_size < 2^31 and prod(chunk_length)*nt_size < 2^31",
                      "HCHUNK_DEF.chunk_size = prod(chunk_length); fill_val_len divides nt_size",
-                     "transfers start at a multiple of nt_size and end inside the element (outside: see REPORT, C misbehaves)"],
+                     "unlimited dimensions of a chunked element never grow at this level (info->length is fixed at creation; HMCPwrite refuses writes past it)"],
     ),
     "C09": dict(
         lean_props=["H4.Props.C09", "H4.Props.C09Region"],
@@ -105,17 +95,6 @@ PROPS = {
         trusted_base=["atom layer (hdf/src/atom.c) and the file table / access records of hfile.c (refcount, attach); error stack and allocation failure not modelled",
                       "V/VS/GR/AN/SD/bit-id handles are not modelled: double release, use after release and foreign ids are checked on the implementation by engine ids (ASan as memory oracle; wrong-kind calls also in a forked child)"],
         assumptions=["single-threaded; fewer than 2^32 nested HAinit_group calls per group; fewer than 2^28 HAregister_atom calls per group and process"],
-    ),
-    "C14": dict(
-        lean_props=["H4.Props.C14"],
-        engines=[
-            E("ro", "e_ro.c", model="ro", wrap=True, quick=dict(cases=240, chunk=10), thorough=dict(cases=4000, seeds=4, chunk=50, timeout=1800)),
-        ],
-        trusted_base=["GNU ld --wrap interposition of fopen/fread/fwrite/fseek/fflush/fclose (harness/wrap.h): a write REQUEST is logged before stdio sees it",
-                      "V/VS/SD/GR/AN layers are not modelled: that they reach the file only through the mutating H operations is checked by engine ro (write log, byte comparison), not proved",
-                      "special-element internals (linked-block, external, compressed, chunked) beyond their access checks are not modelled (result `pass`)"],
-        assumptions=["the operating system lets the process open the file for update (no OS-level permission failure); DFACC_CREATE opens are outside the property",
-                     "access rights are per FILE RECORD (all file ids of one path share it): read-only = no live Hopen of that path ever asked for DFACC_WRITE"],
     ),
     "C16": dict(
         lean_props=["H4.Props.C16"],
@@ -220,4 +199,25 @@ PROPS = {
 
 # merged but not yet claimed (waiting for the model to follow fix: commits in /repo); runnable with bin/check, not in MANIFEST
 PENDING = {
+    "C14": dict(
+        lean_props=["H4.Props.C14"],
+        engines=[
+            E("ro", "e_ro.c", model="ro", wrap=True, quick=dict(cases=240, chunk=10), thorough=dict(cases=4000, seeds=4, chunk=50, timeout=1800)),
+        ],
+        trusted_base=["GNU ld --wrap interposition of fopen/fread/fwrite/fseek/fflush/fclose (harness/wrap.h): a write REQUEST is logged before stdio sees it",
+                      "V/VS/SD/GR/AN layers are not modelled: that they reach the file only through the mutating H operations is checked by engine ro (write log, byte comparison), not proved",
+                      "special-element internals (linked-block, external, compressed, chunked) beyond their access checks are not modelled (result `pass`)"],
+        assumptions=["the operating system lets the process open the file for update (no OS-level permission failure); DFACC_CREATE opens are outside the property",
+                     "access rights are per FILE RECORD (all file ids of one path share it): read-only = no live Hopen of that path ever asked for DFACC_WRITE"],
+    ),
+    "C01": dict(
+        lean_props=["H4.Props.C01"],
+        engines=[
+            E("elem", "e_elem.c", model="elem", quick=dict(cases=1200, chunk=40), thorough=dict(cases=20000, seeds=8, chunk=100), wrap=True),
+        ],
+        trusted_base=["directory encoding on disk (DD blocks, tag tree) is represented by its extents only: C12/C02",
+                      "external-file, compressed and chunked elements are not part of this engine (C03/C04/C05)",
+                      "stdio interposition (ld --wrap) used by the engine for the uninitialised-byte regression oracle"],
+        assumptions=["stdio stream = byte array, a gap created by writing past the end reads as zeros; single-threaded; all offsets and lengths within int32 (the model is unbounded)"],
+    ),
 }
